@@ -352,6 +352,9 @@ func cmdCheck(args []string) int {
 			keys = append(keys, k)
 		}
 	}
+	if *fnOnly == "" {
+		keys = append(keys, implicitSafetyTargets(w, sp, keys, *prop)...)
+	}
 	sort.Strings(keys)
 	for _, k := range keys {
 		fn := w.Funcs[k]
@@ -1339,4 +1342,107 @@ func jsonFields(t types.Type, prefix string) []string {
 		out = append(out, prefix+name)
 	}
 	return out
+}
+
+
+// implicitSafetyTargets: the module functions without a contract that are called (statically, transitively, depth <= 3)
+// from a function whose contract claims `safety` for this property. Each gets a synthesised contract "safety, no
+// precondition" for its own body: a helper a decoder calls must not panic for any argument either. (Found missing by a
+// seventh-round seed: a new name-table helper with an off-by-one bound, called from checkEnvelope.)
+func implicitSafetyTargets(w *World, sp *Specs, keys []string, prop string) []string {
+	if sp.Implicit == nil {
+		sp.Implicit = map[string]*Contract{}
+	}
+	var out []string
+	type item struct {
+		key   string
+		depth int
+	}
+	var work []item
+	for _, k := range keys {
+		ct := sp.Contracts[k]
+		if ct == nil || !ct.Safety || !(len(ct.SafetyFor) == 0 || contains(ct.SafetyFor, prop)) {
+			continue
+		}
+		work = append(work, item{k, 0})
+	}
+	seen := map[string]bool{}
+	for len(work) > 0 {
+		it := work[0]
+		work = work[1:]
+		fn := w.Funcs[it.key]
+		if fn == nil || it.depth >= 3 {
+			continue
+		}
+		for _, b := range fn.Blocks {
+			for _, in := range b.Instrs {
+				ci, ok := in.(ssa.CallInstruction)
+				if !ok {
+					continue
+				}
+				if _, isGo := in.(*ssa.Go); isGo {
+					continue
+				}
+				callee := ci.Common().StaticCallee()
+				if callee == nil || !inModule(callee) || len(callee.Blocks) == 0 || callee.Parent() != nil {
+					continue
+				}
+				ck := funcKey(callee)
+				if seen[ck] || sp.Contracts[ck] != nil || w.Funcs[ck] == nil {
+					continue
+				}
+				// only helpers whose inputs carry no representation invariant: every parameter (and receiver) is a
+				// scalar, a string or a slice of scalars, and the body has no loop. For anything else a sweep without
+				// preconditions fails for want of a contract, not because of a defect (nil receivers, unstated
+				// invariants of objects), and would be a false alarm.
+				if !scalarInputsOnly(callee) || hasLoop(callee) {
+					continue
+				}
+				seen[ck] = true
+				pkg := ""
+				if callee.Pkg != nil {
+					pkg = callee.Pkg.Pkg.Name()
+				}
+				sp.Implicit[ck] = &Contract{Key: ck, Pkg: pkg, Serves: []string{prop}, Safety: true, File: "(implicit: called from a function under a safety contract)"}
+				out = append(out, ck)
+				work = append(work, item{ck, it.depth + 1})
+			}
+		}
+	}
+	return out
+}
+
+
+func scalarInputsOnly(fn *ssa.Function) bool {
+	ok := func(t types.Type) bool {
+		switch u := t.Underlying().(type) {
+		case *types.Basic:
+			return u.Kind() != types.UnsafePointer
+		case *types.Slice:
+			_, b := u.Elem().Underlying().(*types.Basic)
+			return b
+		}
+		return false
+	}
+	for _, p := range fn.Params {
+		if !ok(p.Type()) {
+			return false
+		}
+	}
+	return len(fn.FreeVars) == 0
+}
+
+func hasLoop(fn *ssa.Function) bool {
+	idx := map[*ssa.BasicBlock]int{}
+	for i, b := range fn.Blocks {
+		idx[b] = i
+	}
+	for _, b := range fn.Blocks {
+		for _, s := range b.Succs {
+			if s.Dominates(b) {
+				return true
+			}
+		}
+	}
+	return false
 }
